@@ -15,11 +15,12 @@ Definition clarg (s : state) (k : ekind) : option Z := if request_error_kind k t
 
 (* an open query attempt i at host h *)
 Definition open_query (s : state) (i : nat) (h : host) : Prop :=
-  exists a, nth_error (attempts s) i = Some a /\ a_done a = false /\ a_prep a = false /\ a_host a = h.
+  exists a, nth_error (attempts s) i = Some a /\ a_done a = false /\ a_prep a = false /\ a_host a = h /\
+            a_page a = page_no s.     (* an execution of the CURRENT page fetch *)
 
 Lemma step_resp_query c s i r h : open_query s i h ->
   step c s (Resp i r) = set_result c (set_attempts s (mark_done i (attempts s))) h r.
-Proof. intros (a & N & D & P & <-). cbn [step]. rewrite N, D, P. reflexivity. Qed.
+Proof. intros (a & N & D & P & <- & Pg). cbn [step]. rewrite N, D, P, Pg, Nat.eqb_refl. reflexivity. Qed.
 
 (* ---- the response of a retryable failure: exactly one consultation, with the documented arguments *)
 Lemma retryable_step c s i h k tag : open_query s i h ->
@@ -125,8 +126,10 @@ Proof.
   - destruct (nth_error (attempts s) i) as [a|] eqn:N; [|inversion H; subst; destruct Hin].
     destruct (a_done a) eqn:D; [inversion H; subst; destruct Hin|].
     destruct (a_prep a) eqn:P; [inversion H; subst; destruct Hin|].
+    destruct (Nat.eqb (a_page a) (page_no s)) eqn:Pg; [|inversion H; subst; destruct Hin].
+    apply Nat.eqb_eq in Pg.
     destruct (set_result_consult _ _ _ _ _ _ _ _ _ _ _ _ _ _ H Hin) as (-> & -> & -> & -> & -> & E).
-    exists i. split; [reflexivity|]. split; [exists a; auto|]. auto.
+    exists i. split; [reflexivity|]. split; [exists a; auto 6|]. auto.
   - destruct (nth_error (queue s) k0) as [t|]; [|inversion H; subst; destruct Hin].
     exfalso. apply (run_task_no_consult _ _ _ _ _ _ H) in Hin. discriminate.
   - exfalso. unfold spec_fire in H.
@@ -234,7 +237,7 @@ Lemma set_result_counted c s h r s' ev : set_result c s h r = (s', ev) ->
 Proof.
   intros H. destruct r; cbn [set_result] in H;
     try (inversion H; subst; first [apply sbo_counted, fail_with_same | apply sbo_counted, finish_with_same
-                                   | exact (sbo_counted (set_paging s _) _ (finish_with_same (set_paging s _) _))]).
+                                   | apply sbo_counted, finish_rows_same]).
   - destruct (pol c (nconsult s) k tag (retries s) (if request_error_kind k then msg_cl s else None)) as [d dcl].
     unfold handle_decision in H. inversion H; subst; clear H.
     destruct d; try (unfold counted, retry_count; cbn; repeat split; try lia; try discriminate; auto; fail).
@@ -272,7 +275,8 @@ Proof.
     destruct (a_done a) eqn:D; [inversion H; subst; exact Triv|].
     destruct (a_prep a) eqn:P.
     + inversion H; subst. unfold counted, retry_count. cbn. repeat split; auto; lia.
-    + apply set_result_counted in H. destruct H as (C & L & A). split; [exact C|intros _ _; auto].
+    + destruct (Nat.eqb (a_page a) (page_no s)); [|inversion H; subst; unfold counted, retry_count; cbn; repeat split; auto; lia].
+      apply set_result_counted in H. destruct H as (C & L & A). split; [exact C|intros _ _; auto].
   - destruct (nth_error (queue s) k0) as [t|].
     + pose proof (run_task_cframe _ _ _ _ _ H) as F. split.
       * apply (counted_frame (set_queue s (remove_nth k0 (queue s))) s' ev F).
@@ -340,7 +344,7 @@ Qed.
 Lemma run_retry_same c s k h : nth_error (queue s) k = Some (TRetry true h) -> fin_exc s = None ->
   pool_of s h = PHealthy ->
   exists s', step c s (Run k) = (s', [Sent h (MOrig (msg_cl s)) CRetrySame]) /\
-             attempts s' = attempts s ++ [{| a_host := h; a_prep := false; a_done := false |}] /\
+             attempts s' = attempts s ++ [{| a_host := h; a_prep := false; a_done := false; a_page := page_no s |}] /\
              queue s' = remove_nth k (queue s) /\ plan s' = plan s.
 Proof.
   intros N E P. cbn [step]. rewrite N. cbn [run_task fin_exc set_queue]. rewrite E. cbn [is_some].
